@@ -34,7 +34,8 @@ func genC11(t *rapid.T) C11Scn {
 			}
 		}
 		if st.K == "race" {
-			st.Cost4 = rapid.IntRange(0, 6).Draw(t, "racers")
+			st.Cost4 = rapid.IntRange(0, 14).Draw(t, "racers")
+			st.Fwd = rapid.IntRange(0, 5).Draw(t, "rounds")
 		}
 		if (st.K == "update" || st.K == "foreign") && rapid.IntRange(0, 5).Draw(t, "fwdodd") == 0 {
 			st.Fwd = rapid.IntRange(1, len(c11Pool)).Draw(t, "fwd")
